@@ -31,6 +31,7 @@ type Child struct {
 	counters map[string]int64
 	hashes   map[uint64]struct{}
 	samples  int
+	flags    map[string]bool
 	Cur      uint64
 }
 
@@ -134,6 +135,15 @@ func (c *Child) DumpCase(v any) {
 	}
 	b, _ := json.Marshal(v)
 	os.WriteFile(c.base+".case", b, 0o644)
+}
+
+// Flag / SetFlag: per-process one-shot markers for monitors.
+func (c *Child) Flag(k string) bool { return c.flags[k] }
+func (c *Child) SetFlag(k string) {
+	if c.flags == nil {
+		c.flags = map[string]bool{}
+	}
+	c.flags[k] = true
 }
 
 // Flush makes counters and hashes recorded so far survive a crash.
